@@ -175,6 +175,8 @@ def oracle(case, out):
         if o[1] != ("1" if rt == qt else "0"):
             return "match_qtype(record of type code %d, QTYPE::TYPE(TYPE::from(%d))) = %s, expected %d" % (rt, qt, o[1], int(rt == qt))
         return None
+    if t[0] == "MATCHN" and out.startswith("DIFF"):
+        return "a record held as RData::NULL(code, data) reports another type / matches differently once its data is empty or it is copied: %s (%s)" % (out, case)
     if t[0] in ("MATCH", "MATCHN"):
         rt, rc, qt, qc = (int(x, 16) for x in t[1:5])
         rname = tyname(rt)
